@@ -57,6 +57,7 @@ def check_fft_pair(L, w, rs, rn, du, oversample):
 
 
 class FftHooks(Hooks):
+    prefix = 'C09'
     def __init__(self):
         self.snap = {}
         self.pre = None
